@@ -28,6 +28,23 @@ CLAIMS = {
             'error vanishes (PD), invariant under permuting edges; a vanishing error means the measurement equals the relative pose / maps onto the landmark.',
             AX + TR + 'Unit-quaternion hypotheses on SE(3) operands exactly where the code unit-norm rotation form is compared with the homogeneous form. Over exact reals.',
             'Coq proof over regenerated model (ring identities vs independent spec, induction over edge list) + PrimFloat correspondence'),
+    'C03': ('proof',
+            'Theorem C03 (coq/props/C03.v): for EVERY well-formed graph (any number of edges, parallel and anti-parallel edges, slots in either order, '
+            '1..n slots, mixed dimensions, any set of fixed vertices) the gradient vector, the Hessian matrix and the chi2 assembled by the model of '
+            '_Chi2GradientHessian.update / _calc_chi2_gradient_hessian (defaultdicts with first-contribution-adopted, transposition rule, slice writes, '
+            'mirror write, fixed-key rules, identity block of every fixed vertex) equal, entry by entry, the independently written normal equations '
+            'b = sum J^T Omega e, H = sum J^T Omega J with the fixed-vertex pattern (lib/GNSpec.v); the update moves every free vertex by boxplus of '
+            'its own slice of dx; the hypothesis "slots distinct" is shown necessary by a refuting witness.',
+            AX + 'hand-written model lib/GraphModel.v (dictionaries in insertion order, slice writes as pointwise block writes) validated on every run by an EXACT integer correspondence against graph.py; spsolve is not modelled (theorems quantify over every increment / every solution of H dx = -b); lil_matrix, dict order and set membership are modelled, not verified.',
+            'Coq proof (induction over edge list / dictionary / vertex list, pointwise sums) + exact integer correspondence'),
+    'C06': ('proof',
+            'Theorem C06 (coq/props/C06.v): on a fixed vertex the assembled gradient is 0 and the Hessian row/column is the identity pattern, so ANY '
+            'solution of the normal equations has a zero increment there; the update loop skips fixed vertices, so they keep their pose for any number '
+            'of iterations and ANY increments (singular, non-finite, diverging solves); a zero increment does not move a pose; the free part of a '
+            'solution solves the reduced system; if the reduced matrix is injective so is the assembled one (fixing never spoils well-posedness); '
+            'fix_first_pose fixes exactly the first listed vertex. Together with C03 (assembly) and the exact correspondence.',
+            AX + 'hand-written model lib/GraphModel.v (dictionaries in insertion order, slice writes as pointwise block writes) validated on every run by an EXACT integer correspondence against graph.py; spsolve is not modelled (theorems quantify over every increment / every solution of H dx = -b); lil_matrix, dict order and set membership are modelled, not verified.',
+            'Coq proof over hand-written model (with the C03 assembly theorem) + exact integer correspondence + oracle on singular/diverging runs'),
     'C07': ('proof',
             'PARTIAL. Theorem C07 (coq/props/C07.v): for all 8 regenerated edge programs the error (hence chi2) is unchanged when every '
             'vertex is left-composed with one rigid transform (unit quaternions for SE(3); landmark points moved by the action); boxplus commutes with '
@@ -37,6 +54,15 @@ CLAIMS = {
             'trajectory (H\' = P^T H P with the rotation of T), covered only by the metamorphic oracle on the implementation.',
             AX + TR + 'Over exact reals; floating-point agreement of trajectories is tested by the oracle with magnitude-aware tolerances.',
             'Coq proof over regenerated model (ring identities, uniqueness of derivative, induction over iterations) + metamorphic oracle'),
+    'C08': ('proof',
+            'PARTIAL. Theorem C08 (coq/props/C08.v): the assembled system and chi2 are invariant under permuting the edge list; an injective '
+            'relabelling of ids (negative, sparse, huge) gives the same binding; theta + 2 k pi constructs the same SE(2) pose; splitting an edge into two with '
+            'half the information each leaves b, H, chi2 unchanged; scaling all information by c keeps every solution dx and scales chi2; negating a unit '
+            'quaternion leaves landmark errors unchanged and maps the odometry error e to S e, so chi2 is unchanged for block-diagonal information -- '
+            'and the unrestricted claim is REFUTED by a witness (known finding, not repaired). NOT proved: invariance under permuting the VERTEX list '
+            '(conjugation of H by a permutation) -- covered by the metamorphic oracle only.',
+            AX + 'hand-written model lib/GraphModel.v (dictionaries in insertion order, slice writes as pointwise block writes) validated on every run by an EXACT integer correspondence against graph.py; spsolve is not modelled (theorems quantify over every increment / every solution of H dx = -b); lil_matrix, dict order and set membership are modelled, not verified.' + TR,
+            'Coq proof (sum permutation/linearity lemmas over GNSpec, ring identities on regenerated programs, refutation by witness) + metamorphic oracle'),
     'C09': ('proof',
             'Theorem C09 (coq/props/C09.v): for the pose model regenerated from pose/*.py on every run, (+) is the product of homogeneous '
             'matrices / Hamilton product of an independently written specification (lib/Spec.v), a (-) b = b^-1 (+) a, inverse and identity are '
